@@ -66,12 +66,16 @@ def run_env(seed=0, extra=None):
 
 def run_cli(binary, args, cwd, stdin=None, seed=0, extra_env=None, timeout=60):
     """returns (exit code or 'timeout', stdout bytes, stderr bytes)"""
-    try:
-        r = subprocess.run([binary] + args, cwd=cwd, input=stdin, env=run_env(seed, extra_env),
-                           stdout=subprocess.PIPE, stderr=subprocess.PIPE, timeout=timeout)
-        return r.returncode, r.stdout, r.stderr
-    except subprocess.TimeoutExpired as e:
-        return "timeout", e.stdout or b"", e.stderr or b""
+    # a run that exceeds the limit is repeated once with six times the limit before it is called a
+    # hang: a loaded machine must not turn into an alarm (a genuine hang still exceeds both)
+    for limit in (timeout, timeout * 6):
+        try:
+            r = subprocess.run([binary] + args, cwd=cwd, input=stdin, env=run_env(seed, extra_env),
+                               stdout=subprocess.PIPE, stderr=subprocess.PIPE, timeout=limit)
+            return r.returncode, r.stdout, r.stderr
+        except subprocess.TimeoutExpired as e:
+            last = e
+    return "timeout", last.stdout or b"", last.stderr or b""
 
 
 def scratch(name):
